@@ -785,6 +785,25 @@ example : alpWalk (fun maj min => if maj == 3 && min == 4 then .other else if ma
             alpUpdaterName [109, 97, 105, 110] [101, 100, 103, 101]], false) := by
   decide +kernel
 
+/-- Tie A: `osv.Factory.UpdaterSet` answers a 304 with the stored set
+    (`case http.StatusNotModified: s = f.cur`) and stores etag and set together,
+    once, only when the body was read without error. -/
+theorem osv_factory_shape :
+    JoinState.osv.notModifiedHandsOutCur = true ∧ JoinState.osv.etagStoredWithCompleteSet = true := by
+  decide +kernel
+
+/-- The OSV factory over any history (after fix 0fa08085), against a bucket
+    whose validator determines its content: every successful `UpdaterSet` call
+    hands out the updaters of exactly the ecosystems the bucket lists at that
+    moment — also when the conditional request is answered 304, and also after
+    calls that failed or whose body broke off.  (Before the fix a 304 yielded
+    the empty set.) -/
+theorem osv_factory_hands_out_listed_ecosystems (content : Bytes → List Bytes)
+    (evs : List (Option (Bytes × Bool))) (etag : Bytes) (ok : Bool) (ns : List Bytes)
+    (hout : (osvStep (Sm.run osvStep {} (evs.map (osvEvOf content))) (.listing etag (content etag) ok)).2 = .set ns) :
+    ns = osvUpdaterNames (content etag) :=
+  osvStep_answer content _ etag ok ns (osvRun_inv content evs {} (Or.inl rfl)) hout
+
 /-! ## structure of the sources the join relies on -/
 
 /-- The Debian and Ubuntu distribution scanners construct their result with
